@@ -1,0 +1,13 @@
+//go:build verif
+
+// Contracts read by /verif/govc (comment-only; never compiled into the node).
+
+package PVM
+
+//@ func ReadUintVariable
+//@   props C12 C03
+//@   spec nat.smt2
+//@   ensures [cases spec.nat_l(result0) 0..8] strict: result2 == ExitContinue ==> result1 == int(spec.nat_len(result0)) && len(data) >= result1 && forall(i, 0, 9, i < result1 ==> data[i] == spec.nat_byte(result0, uint64(i)))
+//@   ghost x uint64
+//@   ensures [cases spec.nat_l(x) 0..8] complete: (len(data) >= int(spec.nat_len(x)) && forall(i, 0, 9, i < int(spec.nat_len(x)) ==> data[i] == spec.nat_byte(x, uint64(i)))) ==> (result2 == ExitContinue && result0 == x && result1 == int(spec.nat_len(x)))
+//@   ensures reject: result2 != ExitContinue ==> result2 == ExitPanic && result0 == 0 && result1 == 0
